@@ -39,7 +39,7 @@ func init() {
 			checkC17Help(c, budget(c.Tier, 400, 40000))
 		}}
 	props["C19"] = propRun{
-		rule: "(a) tags rendered from random (key, value) lists with strconv.Quote and random blanks, one third mutated at a random byte position, through the scanner; (b) generated declarations (15% deliberately malformed / colliding / over-long short names / defaults on flags) built on the real library and in the model, full dump of the public model compared, attributes checked against reflect.StructTag; (c) duplicates stage: one declaration with two options of different groups sharing a short or (namespaced) long name - top level / nested / sibling groups / two levels deep / created by a namespace - must be refused with ErrDuplicatedFlag, controls accepted; (d) malformed stage: a well-formed declaration in which the tag of one field (option at the top / in a group / in a command, group field, command field, positional-args field, positional argument) is broken in a definite way must be refused with ErrTag; (e) indirect-types stage, against the library only (types outside the model's universe): fields reaching bool / string / int through up to three levels of slice and pointer, with and without a default tag: a default on a boolean flag is refused with ErrInvalidTag whatever the indirection, everything else is accepted; distinct per tag / declaration",
+		rule: "(a) tags rendered from random (key, value) lists with strconv.Quote and random blanks, one third mutated at a random byte position, through the scanner; (b) generated declarations (15% deliberately malformed / colliding / over-long short names / defaults on flags) built on the real library and in the model, full dump of the public model compared, attributes checked against reflect.StructTag; (c) duplicates stage: one declaration with two options of different groups sharing a short or (namespaced) long name - top level / nested / sibling groups / two levels deep / created by a namespace - must be refused with ErrDuplicatedFlag, controls accepted; (d) malformed stage: a well-formed declaration in which the tag of one field (option at the top / in a group / in a command, group field, command field, positional-args field, positional argument) is broken in a definite way must be refused with ErrTag; (e) indirect-types stage, against the library only (types outside the model's universe): fields reaching bool / string / int through up to three levels of slice and pointer, with and without a default tag: a default on a boolean flag is refused with ErrInvalidTag whatever the indirection, everything else is accepted; (f) containers stage, against the library only: a struct (or pointer to one) used as group / command / positional-args / untagged nested struct whose type also implements Unmarshaler (pointer receiver, value receiver, promoted): the public model holds the group with its namespaced options and defaults, the command with its aliases, the positional arguments; a malformed tag inside it is refused with ErrTag; distinct per tag / declaration",
 		run: func(c *Ctx) {
 			c.N = budget(c.Tier, 3000, 300000)
 			checkC19Scan(c)
@@ -49,6 +49,7 @@ func init() {
 			checkC19Malformed(c, budget(c.Tier, 300, 6000))
 			checkC19Exotic(c, budget(c.Tier, 300, 3000))
 			checkC19Namespaces(c, budget(c.Tier, 400, 10000))
+			checkC19Containers(c, budget(c.Tier, 200, 2000))
 		}}
 	props["C02"] = propRun{
 		rule: "(a) option tokens in all spellings over ASCII / multi-byte / invalid names and arbitrary values through the splitting functions; (b) metamorphic groups: one generated declaration and surrounding argument vector, one occurrence of one option rendered as -xV, -x=V, -x V, --name=V, --name V and quoted forms; (c) cluster groups -abc [V] / -a -b -c [V] / -ab -c [V] with non-ASCII flags; (d) random whole-parser cases with 40% non-ASCII names; distinct per token / group",
@@ -175,10 +176,11 @@ func init() {
 	}, oracleNoPanic)
 	{
 		base := props["C08"]
-		props["C08"] = propRun{rule: base.rule + "; scope stage: command paths with occurrences of spellings that several commands of the path declare (the innermost declaration must receive the value, the outer ones stay untouched) and of options of commands outside the path (ErrUnknownFlag), expected outcome computed independently; words stage: paths of command words given by name or by alias (with and without PassAfterNonOption), a non-command word and further tokens behind a command whose subcommands-optional mark is set independently of its parent's: active chain, ErrCommandRequired / ErrUnknownCommand / ordinary argument stated from the public model", run: func(c *Ctx) {
+		props["C08"] = propRun{rule: base.rule + "; scope stage: command paths with occurrences of spellings that several commands of the path declare (the innermost declaration must receive the value, the outer ones stay untouched) and of options of commands outside the path (ErrUnknownFlag), expected outcome computed independently; words stage: paths of command words given by name or by alias (with and without PassAfterNonOption), a non-command word and further tokens behind a command whose subcommands-optional mark is set independently of its parent's: active chain, ErrCommandRequired / ErrUnknownCommand / ordinary argument stated from the public model; late stage: a parser that was already used for a call (and a completion) down some command path is given a further option group on a command of that path and a further subcommand (with an alias) below its end: the new option is accepted from the end of the path onwards, the new word selects the new command", run: func(c *Ctx) {
 			base.run(c)
 			checkC08Scope(c, budget(c.Tier, 1500, 60000))
 			checkC08Words(c, budget(c.Tier, 1200, 50000))
+			checkC08Late(c, budget(c.Tier, 600, 20000))
 		}}
 	}
 	parseProp("C09", caseRule+"emphasis: executable commands at every level, faults injected in otherwise valid vectors, CommandHandler", 2500, 100000, func(p *Profile) {
